@@ -6,10 +6,14 @@ E2  TLC emits (layout, extents, allocated size, every coordinate -> flat index);
     (a) over identity<size1> (flat index) and (b) over the real array backend obtained through the re-layout
     conversion: allocated size, values, write / read-back, under ASan+UBSan with assertions; portable and
     -mbmi2 builds; coordinate types size_t/unsigned/int, storage float/double, M in 1..4.
+E2' Lifecycle.tla with long-lived views: "written through a view ... is the value read back" must also hold for a view kept
+    across operations on the field object - a view denotes the storage, and keeps doing so when ownership of the storage
+    moves; every transition of that model (<= 5 operations, 2 slots, 1 view) replayed on real fields under ASan.
 E3  random extents beyond the bound: recorded (extents, coordinate, index, allocated size) events validated
     by Trace_Layout.
 """
 import checks.layout_common as lc
+import checks.lifecycle_common as lcc
 import vf
 
 LEVEL = "model_checking"
@@ -42,4 +46,7 @@ def run(ck):
         s = ck.harness_output("layout-trace-" + fl, rc, out, err)
         if rc == 0:
             ck.validate_trace("Trace_Layout", "Trace_Layout.cfg", tr, "layout/trace-" + fl, n_traces=1, n_events=s.get("events", 0))
+    # long-lived views across ownership operations (strided + morton quick; + hilbert and portable morton thorough)
+    fv, nv = lcc.gen(ck, "Gen_Lifecycle.views.cfg" if ck.quick else "Gen_Lifecycle.views4.cfg", "views", timeout=1800)
+    lcc.replay(ck, [fv], ["asan"] if ck.quick else ["asan", "asan0"])
     ck.assume("coordinate scalar / storage / M combinations form a rotating cover (full cross on layout x N x coordinate type)")
